@@ -257,6 +257,62 @@ def _comp_env(view, expr):
     return env
 
 
+def tree_per_net(program, rep):
+    """Every net gets a tree of its own, grown from its own source (also
+    run by C03: a tree shared between nets collects both nets' leaves)."""
+    rt = program.get(NER + ":route")
+    TR = Terms(rt)
+    P = lambda n: ("param", n)      # noqa: E731
+    NET = ("elem", P("nets"))
+    okt = False
+    detail = ""
+    for n in TR.cfg.nodes:
+        st = n.ast
+        if n.kind == "stmt" and isinstance(st, ast.Assign) and \
+                len(st.targets) == 1 and \
+                isinstance(st.targets[0], ast.Subscript):
+            tgt = TR.term(st.targets[0], n)
+            if tgt[0] != "item" or tgt[2] != NET:
+                continue
+            rets = [TR.term(r.value) for r in returns_of(rt)
+                    if r.value is not None]
+            if tgt[1] not in rets:
+                continue
+            okt = True
+            for alt in alternatives(TR.term(st.value, n)):
+                alt = plain(alt)
+                m = match(("comp", ("call", ("global", V("f")), V("args"),
+                                    V("kw")), 0), alt)
+                if m is None or m["f"] not in ("ner_net",
+                                               "avoid_dead_links"):
+                    # a tree taken out of a container (a cache keyed by the
+                    # endpoints, say) is an object made for another net;
+                    # anything else is a form not read here
+                    head = alt[1] if alt[0] == "comp" else alt
+                    if head[0] not in ("get", "item"):
+                        raise AnalysisError("route: the tree stored for a "
+                                            "net is produced by %s, a form "
+                                            "these rules do not read" %
+                                            show(alt)[:60])
+                    okt = False
+                    detail = show(alt)
+                elif m["f"] == "ner_net" and (not m["args"] or plain(
+                        m["args"][0]) != ("item", P("placements"),
+                                          ("attr", NET, "source"))):
+                    okt = False
+                    detail = "tree not grown from the net's source"
+    if not okt and not detail:
+        raise AnalysisError("route: where the tree of a net is stored in "
+                            "the result was not found")
+    rep.check(okt, "C01-R3", qual(rt), "each net's tree is generated for "
+              "that net (from the chip of its own source) in the iteration "
+              "that stores it: no tree object is shared between nets",
+              construct="tree per net", node=rt,
+              fail="the tree stored for a net may be an object obtained "
+                   "elsewhere (%s): sink routes added for one net then "
+                   "appear in another net's tree" % detail)
+
+
 def r3_cores(program, rep):
     rt = program.get(NER + ":route")
     am = program.get(PU + ":build_application_map")
@@ -280,43 +336,7 @@ def r3_cores(program, rep):
               "cores in [X.start, X.stop) of the vertex's own allocation of "
               "the core resource", construct="loader core range %s" %
               show(x2), node=c2)
-    # every net gets a tree of its own, grown from its own source
-    NET = ("elem", P("nets"))
-    okt = False
-    detail = ""
-    for n in TR.cfg.nodes:
-        st = n.ast
-        if n.kind == "stmt" and isinstance(st, ast.Assign) and \
-                len(st.targets) == 1 and \
-                isinstance(st.targets[0], ast.Subscript):
-            tgt = TR.term(st.targets[0], n)
-            if tgt[0] != "item" or tgt[2] != NET:
-                continue
-            rets = [TR.term(r.value) for r in returns_of(rt)
-                    if r.value is not None]
-            if tgt[1] not in rets:
-                continue
-            okt = True
-            for alt in alternatives(TR.term(st.value, n)):
-                alt = plain(alt)
-                m = match(("comp", ("call", ("global", V("f")), V("args"),
-                                    V("kw")), 0), alt)
-                if m is None or m["f"] not in ("ner_net",
-                                               "avoid_dead_links"):
-                    okt = False
-                    detail = show(alt)
-                elif m["f"] == "ner_net" and (not m["args"] or plain(
-                        m["args"][0]) != ("item", P("placements"),
-                                          ("attr", NET, "source"))):
-                    okt = False
-                    detail = "tree not grown from the net's source"
-    rep.check(okt, "C01-R3", qual(rt), "each net's tree is generated for "
-              "that net (from the chip of its own source) in the iteration "
-              "that stores it: no tree object is shared between nets",
-              construct="tree per net", node=rt,
-              fail="the tree stored for a net may be an object obtained "
-                   "elsewhere (%s): sink routes added for one net then "
-                   "appear in another net's tree" % detail)
+    tree_per_net(program, rep)
     rep.check(ok1 and ok2, "C01-R3", "router/loader", "both use the same "
               "half-open interval of the same allocation slice: the cores "
               "packets are delivered to are the cores the binary is loaded "
@@ -402,6 +422,7 @@ def r6_components(program, rep):
     rep.guard("C04-R2", C04.r2_default, program, rep)
     rep.guard("C04-R3", C04.r3_ranges, program, rep)
     rep.guard("C04-R5", C04.r5_contract, program, rep)
+    rep.guard("C03-R2", C03.r2_repair, program, rep)
     rep.guard("C03-R5", C03.r5_reconnect, program, rep)
     rep.guard(["C03-R3", "C03-R4"], C03.r3_growth, program, rep)
     rep.guard("C03-R3", C03.r3_copy, program, rep)
